@@ -197,6 +197,7 @@ func minimise(t *testing.T, plan *Plan, prop, sig string, budget int) *Plan {
 		func(k *Knobs) { k.IDKey = "" },
 		func(k *Knobs) { k.Secret = "" },
 		func(k *Knobs) { k.DisableRTValidation = false },
+		func(k *Knobs) { k.LegacyRevocationHandler = false },
 		func(k *Knobs) { k.Debug = false; k.LegacyErrors = false },
 	}
 	for _, f := range simplify {
